@@ -287,6 +287,25 @@ VH_GROUP(morph_rgb8)
                     if (got != exp) { ++fails_here; ctx.fail(mkid(), dil ? "dilate!=max-over-neighbourhood" : "erode!=min-over-neighbourhood", vh::S() << "channel " << c << " got " << show(got) << " expected " << show(exp)); break; }
                 }
                 if (!dst.g.intact()) { ++fails_here; ctx.fail(mkid(), "write-outside-destination"); }
+                {
+                    // a destination of the same colour space in another channel order: every COLOUR is the max/min over its own neighbourhood
+                    Buf<gil::bgr8_pixel_t> dstb(w, h, 0xA5);
+                    auto dvb = dstb.view();
+                    if (dil) gil::dilate(src.cview(), dvb, k, 1); else gil::erode(src.cview(), dvb, k, 1);
+                    ++ctx.evaluations; ++ctx.nontrivial;
+                    for (int c = 0; c < 3; ++c)
+                    {
+                        Img exp = ref_morph(ch[c], w, h, s, dil != 0), got(size_t(cells), 0);
+                        for (int i = 0; i < cells; ++i)
+                        {
+                            auto px = dvb(i % w, i / w);
+                            got[size_t(i)] = c == 0 ? int(gil::get_color(px, gil::red_t())) : c == 1 ? int(gil::get_color(px, gil::green_t())) : int(gil::get_color(px, gil::blue_t()));
+                        }
+                        if (got != exp) { ++fails_here; ctx.fail(mkid() + "/rgb8>bgr8", dil ? "dilate!=max-over-neighbourhood" : "erode!=min-over-neighbourhood", vh::S() << "colour " << c << " got " << show(got) << " expected " << show(exp)); break; }
+                    }
+                    if (!dstb.g.intact()) { ++fails_here; ctx.fail(mkid() + "/rgb8>bgr8", "write-outside-destination"); }
+                    ++ctx.witness["morph_rgb8_into_bgr8"];
+                }
                 if (ctx.san_take_lazy(mkid)) ++fails_here;
                 ++ctx.witness["morph_rgb8_channels"];
                 if (dil && idx == per * per * per / 3) ctx.sample(vh::S() << mkid() << ": every channel equals the max over its own neighbourhood");
